@@ -45,6 +45,7 @@ META = dict(
               "2010..2100, over the reals with symbolic integer timestamps AND for binary64 by a per-binade integer "
               "encoding of the two roundings (fpkernel), under a solver-chosen local time zone; payload wrappers (binance "
               "order / trades / balance, bitstamp order / balance) with symbolic numeric cells; binance "
+              "streamed bitstamp trades / orders as JSON text (numbers + exact strings, 7 digit shapes); binance "
               "Account.get_order_info on all three accounts through the client stack for every documented order status",
         thorough="adds coefficients up to 1e28 with exponents -30 .. +12 on the main entry points, 4 trades in the "
                  "decode scenario"),
@@ -61,7 +62,8 @@ META = dict(
              "OrderStatus / OrderInfo / Balance (the remaining ones are single Decimal(str) / timestamp accessors)"],
     required_covers=["a decimal parameter was transmitted", "an unset option was omitted", "timestamp kernel decided",
                      "the local time zone was not UTC", "a closed order with trades was queried",
-                     "the pair info cache was warm"],
+                     "the pair info cache was warm",
+                     "a streamed number with more than 15 significant digits was decoded"],
 )
 
 EXPONENTS = list(range(-14, 5))
@@ -583,6 +585,37 @@ def binance_get_order_info(ctx, account="spot_account"):
         ctx.cover("a closed order with trades was queried")
 
 
+NUMERIC_SHAPES = ["1", "0.1", "0.00000001", "250000000.00000001", "19034.123456789012", "999999999999.99999999",
+                  "12345.678"]
+
+
+def decode_bitstamp_stream(ctx, which="trade"):
+    """Streamed bitstamp trades / orders as they arrive: the JSON text carries every amount and price twice, as a number
+    and as the exact string; the text goes through json.loads (where the number becomes a binary64) and the wrapper
+    must still report exactly the decimal that was sent.  Values are digit shapes (choice), the text is real."""
+    import json
+    amount = NUMERIC_SHAPES[ctx.choice("amount_shape", len(NUMERIC_SHAPES))]
+    price = NUMERIC_SHAPES[ctx.choice("price_shape", len(NUMERIC_SHAPES))]
+    pair = Pair("BTC", "USD")
+    if which == "trade":
+        text = ('{"id": 1, "amount": %s, "amount_str": "%s", "price": %s, "price_str": "%s", "type": 0, '
+                '"microtimestamp": "1577836800000000", "timestamp": "1577836800", "buy_order_id": 1, "sell_order_id": 2}'
+                % (amount, amount, price, price))
+        obj = bt_trades.Trade(pair, json.loads(text))
+        ctx.prove([obj.amount == Decimal(amount), obj.price == Decimal(price)],
+                  "C17 bitstamp streamed trades decode to exactly the decimals that were sent", info=(amount, price))
+    else:
+        text = ('{"id": 1, "id_str": "1", "order_type": 0, "order_subtype": 0, "amount": %s, "amount_str": "%s", '
+                '"amount_at_create": "%s", "amount_traded": "0", "price": %s, "price_str": "%s", '
+                '"microtimestamp": "1577836800000000", "datetime": "1577836800"}'
+                % (amount, amount, amount, price, price))
+        obj = bt_orders.Order(pair, json.loads(text))
+        ctx.prove([obj.amount == Decimal(amount), obj.amount_filled == 0, obj.price == Decimal(price)],
+                  "C17 bitstamp streamed orders decode to exactly the decimals that were sent", info=(amount, price))
+    if len(amount.replace(".", "")) > 15:
+        ctx.cover("a streamed number with more than 15 significant digits was decoded")
+
+
 def decode_bitstamp_order(ctx, ntx=2):
     """bitstamp OrderInfo / Balance wrappers: filled amounts and fees are the sums over the transactions"""
     ctx.patch(bt_exchange, "Decimal", DecimalFactory)
@@ -665,6 +698,9 @@ def jobs(tier):
     js.append(Job("decode binance order / trades / balance", "decode_binance_order", dict(ntrades=4 if tier != "quick"
                                                                                        else 3),
                   validate_every=5, sample_every=10))
+    for which in ("trade", "order"):
+        js.append(Job("decode bitstamp streamed %s (JSON text with numbers and exact strings)" % which,
+                      "decode_bitstamp_stream", dict(which=which), validate_every=5, sample_every=10))
     js.append(Job("decode bitstamp order / balance", "decode_bitstamp_order", dict(ntx=2), validate_every=5,
                   sample_every=10))
     return js
